@@ -4,6 +4,24 @@ from ..gen import scripts as S
 from .C06 import bline, sline, LEAF_DAG
 
 SPEC = dict(
+    manifest=dict(
+        category='proof',
+        text='Lean 4 theorems over the hand-written Builder/Slice model, for ALL builders, values and operation histories: every operation '
+             '(typed stores, store_cell, store_slice, store_snake_bytes) keeps the builder within 1023 bits / 4 refs whether it returns or raises '
+             'after a partial write, hence so does every finite history (c07_invariant, induction over the op list); end_cell succeeds exactly '
+             'when depth <= 1023 (c07_end_cell_depth, via the C01 constructor model); a typed store raises IF AND ONLY IF the value is out of '
+             'range for its width or its TL-B encoding does not fit the remaining bits/refs (c07_refuse_iff, both directions; '
+             'c07_refuse_iff_composite for store_cell/store_slice with the REMAINING refs of the slice); the primitive consuming reads return '
+             'exactly the next bits and advance by exactly that many, and raise leaving the slice unchanged when more is requested than remains '
+             '(c07_read_bounds); every typed read leaves a suffix of its input (c07_read_suffix). The model is tied to the working tree by '
+             'differential testing of builder histories at every fill level and of over-reads, each also checked on the library alone against an '
+             'independent fits/range predictor.',
+        level_note='Proved for all inputs: the statements above, about Model/Builder.lean. Only sampled: that the Python code behaves as the model '
+                   '(correspondence on generated histories/over-reads); the depth-1023/1024 boundary through the real builder is run concretely. '
+                   'Preconditions stated in the theorems: width 0 is outside the library domain (int2ba refuses it), anycast depth is checked '
+                   'against its 5-bit field (TL-B says <= 30), Address.hash_part is assumed to have 32 bytes. Non-consuming preload_* on an '
+                   'over-read return short data (outside the property, recorded in design/C07.md).',
+        technique='Lean 4 proof (hand model, invariant by induction over operation histories) + differential correspondence with the library'),
     design_ref='DESIGN.md §6 C07',
     rule='builder histories at every fill level (0,1,1015..1023 bits x 0..4 refs) mixing fitting, overflowing and out-of-range stores '
          '(ints, var-ints, bits, bytes, refs, maybe-refs, cells, partly consumed slices, addresses, snake strings); each op must succeed iff '
@@ -45,12 +63,13 @@ def rand_store(rng, ncells, dag):
         return rng.choice([f'u:{1 << n}:{n}', f'u:-1:{n}', f'i:{1 << (n - 1)}:{n}', f'i:{-(1 << (n - 1)) - 1}:{n}', f'u:0:0', 'i:0:0',
                            f'vu:{1 << 120}:4', 'vu:-1:4', f'vi:{1 << 119}:4', f'vi:{-(1 << 119) - 1}:4', f'c:{1 << 120}', 'c:-7',
                            f'a:e:512:1', f'a:e:3:8', 'a:s:128:' + '00' * 32, 'a:s:-129:' + '00' * 32, 'a:s:0:' + '00' * 32 + ':0:0',
-                           'a:s:0:' + '00' * 32 + ':3:8'])
+                           'a:s:0:' + '00' * 32 + ':3:8', 'a:e:0:5', 'a:e:0:1', 'a:e:0:0', 's:' + '61' * 128, 's:' + 'c3a9' * 64, 's:' + '61' * 127,
+                           'a:s:0:' + '00' * 32 + ':31:5', 'a:s:0:' + '00' * 32 + ':32:5'])
     if r < 0.65:
         n = rng.choice([1, 7, 8, 9, 100, 500, 1023])
         return rng.choice([f'b:{"1" * n}', f'by:{"ab" * (n // 8)}' if n >= 8 else 'bit:1'])
     if r < 0.8:
-        return rng.choice([f'r:{rng.randrange(ncells)}', f'mr:{rng.randrange(ncells)}', 'mr:-'])
+        return rng.choice([f'r:{rng.randrange(ncells)}', f'mr:{rng.randrange(ncells)}', 'mr:-', f'd:{rng.randrange(ncells)}', 'd:-'])
     if r < 0.9:
         return f'cell:{rng.randrange(ncells)}'
     k = rng.randrange(ncells)
@@ -128,12 +147,36 @@ def overread(ctx, rem_bits, rem_refs, req, kind):
     ctx.expect_model(sline(dag, 1, [op]), f'ok {res} {rb} {rr}', 'overread')
 
 
+def overread_refs(ctx, nrefs, kind):
+    """consume all n references, then ask for one more (load_ref / preload_ref / load_maybe_ref / load_dict with the bit set)"""
+    dag = [(G.ORD, '1', ()), (G.ORD, '0', ())] + [(G.ORD, '1' * 8, tuple(i % 2 for i in range(nrefs)))]
+    cells = G.lib_build(dag)
+    last = {'lr': 'lr', 'pr': 'pr', 'lmr': 'lmr', 'pmr': 'pmr', 'ld': 'ld:8'}[kind]
+    ops = ['lr'] * nrefs + [last]
+    ctx.case(('over-refs', nrefs, kind))
+    ctx.count(f'refs-{kind}:over')
+    res, rb, rr = S.exec_slice(cells[2], ops)
+    got = res.split(';')
+    inp = {'dag': [list(n) for n in dag], 'ops': ops}
+    want = [cells[i % 2].hash.hex() for i in range(nrefs)]
+    if got[:nrefs] != want:
+        ctx.fail('read:lr', 'load_ref did not return the references in order', inp, got[:nrefs], want)
+    elif got[nrefs] != 'x':
+        ctx.fail(f'overread:{kind}', f'{last} with no references left returned something', inp, got[nrefs], 'exception')
+    elif rr != '-':
+        ctx.fail(f'overread-state:{kind}', f'failed {last} changed the remaining references', inp, rr, '-')
+    ctx.expect_model(sline(dag, 2, ops), f'ok {res} {rb} {rr}', 'overread-refs')
+
+
 def run(ctx):
     rng = ctx.rng
+    for nrefs in range(0, 5):
+        for kind in ('lr', 'pr', 'lmr', 'pmr', 'ld'):
+            overread_refs(ctx, nrefs, kind)
     dag = LEAF_DAG + [(G.ORD, '0' * 1023, (0, 1, 2, 3)), (G.ORD, '10', (0,))]
     cells = G.lib_build(dag)
     fills = [0, 1, 500] + list(range(1015, 1024))
-    for t in range(ctx.n(40, 400)):
+    for t in range(ctx.n(100, 400)):
         for fb in fills:
             for fr in range(5):
                 history(ctx, dag, cells, fb, fr, t)
@@ -145,7 +188,7 @@ def run(ctx):
             overread(ctx, rem, 0, req, 'lby')
         for kind in ('bit', 'lr', 'lmr', 'lvu', 'lc', 'la'):
             overread(ctx, rem, rng.randrange(0, 2), 0, kind)
-    for _ in range(ctx.n(300, 3000)):
+    for _ in range(ctx.n(1000, 3000)):
         rem = rng.randrange(0, 1024)
         overread(ctx, rem, rng.randrange(0, 5), rng.choice([rem, rem + 1, rem - 1 if rem else 0, rng.randrange(0, 1100)]), rng.choice(['lu', 'li', 'lb', 'sk']))
     # plain-bitarray cells: slices must be bounds-checked too (F3b)
